@@ -35,6 +35,7 @@ Meaning (all frozen, hashable, comparable by ==)::
     ("ann", meaning, (meta,))
 """
 import collections
+import collections.abc
 import concurrent.futures
 import enum
 import functools
@@ -162,6 +163,15 @@ ORIGINS = {
     "LifoQueue": (queue.LifoQueue, None, (_ANY,)),
     "SimpleQueue": (queue.SimpleQueue, None, (_ANY,)),
     "Future": (concurrent.futures.Future, None, (_ANY,)),
+    # the abstract collections (PEP 585 spelling and typing aliases): bare use means Any at every position, like for list/dict
+    "Iterable": (collections.abc.Iterable, typing.Iterable, (_ANY,)),
+    "Collection": (collections.abc.Collection, typing.Collection, (_ANY,)),
+    "Sequence": (collections.abc.Sequence, typing.Sequence, (_ANY,)),
+    "MutableSequence": (collections.abc.MutableSequence, typing.MutableSequence, (_ANY,)),
+    "AbstractSet": (collections.abc.Set, typing.AbstractSet, (_ANY,)),
+    "MutableSet": (collections.abc.MutableSet, typing.MutableSet, (_ANY,)),
+    "Mapping": (collections.abc.Mapping, typing.Mapping, (_ANY, _ANY)),
+    "MutableMapping": (collections.abc.MutableMapping, typing.MutableMapping, (_ANY, _ANY)),
     # user generics
     "G": (G, None, (_ANY,)),
     "GB": (GB, None, (_INT,)),
@@ -205,6 +215,9 @@ _ALIAS_NAME = {
     "list": "List", "set": "Set", "frozenset": "FrozenSet", "Counter": "typing.Counter", "deque": "Deque", "dict": "Dict",
     "defaultdict": "DefaultDict", "OrderedDict": "typing.OrderedDict", "ChainMap": "typing.ChainMap", "type": "Type",
     "Pattern": "typing.Pattern", "Match": "typing.Match",
+    "Iterable": "typing.Iterable", "Collection": "typing.Collection", "Sequence": "typing.Sequence",
+    "MutableSequence": "typing.MutableSequence", "AbstractSet": "typing.AbstractSet", "MutableSet": "typing.MutableSet",
+    "Mapping": "typing.Mapping", "MutableMapping": "typing.MutableMapping",
 }
 _CLASS_NAME = {
     "Counter": "collections.Counter", "deque": "collections.deque", "defaultdict": "collections.defaultdict",
